@@ -74,6 +74,96 @@ Proof.
   specialize (Hl m Hm). unfold present. destruct (lookup g m); [discriminate|discriminate].
 Qed.
 
+(* ---------- the schemas as the walks see them: flattened fields merged (cenv) ---------------- *)
+Lemma client_env_of_spec g : forall l l', client_env_of g l = Some l' ->
+  length l' = length l
+  /\ (forall k, lookup l k = None -> lookup l' k = None)
+  /\ (forall k s, lookup l k = Some s -> exists s', client_schema g s = Some s' /\ lookup l' k = Some s')
+  /\ (forall k s', In (k, s') l' -> exists s, In (k, s) l /\ client_schema g s = Some s').
+Proof.
+  induction l as [|[k0 s0] r IH]; intros l' E.
+  - cbn in E. injection E as <-. repeat split; try (intros; discriminate); intros k s' [].
+  - cbn [client_env_of] in E. destruct (client_schema g s0) as [s0'|] eqn:E0; [|discriminate].
+    destruct (client_env_of g r) as [r'|] eqn:Er; [|discriminate]. injection E as <-.
+    destruct (IH r' eq_refl) as (L & N & S & I). split; [cbn [length]; rewrite L; reflexivity|]. split; [|split].
+    + intros k. cbn [lookup]. destruct (key_eqb k k0); [discriminate|apply N].
+    + intros k s. cbn [lookup]. destruct (key_eqb k k0).
+      * intros [= <-]. exists s0'. split; [exact E0|reflexivity].
+      * apply S.
+    + intros k s' [Hh|Ht].
+      * injection Hh as <- <-. exists s0. split; [left; reflexivity|exact E0].
+      * destruct (I k s' Ht) as (s & Hs & Es). exists s. split; [right; exact Hs|exact Es].
+Qed.
+
+Lemma cenv_spec g g' : client_env g = Some g' -> cenv g = g'.
+Proof. intro E. unfold cenv. rewrite E. reflexivity. Qed.
+
+Lemma cenv_present g g' k : client_env g = Some g' -> (present g' k <-> present g k).
+Proof.
+  intro E. destruct (client_env_of_spec g g g' E) as (_ & N & S & _). unfold present. split; intros H Hn.
+  - apply H. apply N. exact Hn.
+  - destruct (lookup g k) as [s|] eqn:Ek; [|apply H; reflexivity].
+    destruct (S k s Ek) as (s' & _ & E'). rewrite E' in Hn. discriminate.
+Qed.
+
+(* a client property is a property of the object itself or of an object of the schema set *)
+Lemma client_props_origin g : forall f ps cps, client_props f g ps = Some cps ->
+  forall p, In p cps -> In p ps \/ exists k qs, lookup g k = Some (SObject qs) /\ In p qs.
+Proof.
+  induction f as [|f IHf]; intros ps cps E; [discriminate|].
+  revert cps E. induction ps as [|q r IHr]; intros cps E p Hp.
+  - cbn in E. injection E as <-. destruct Hp.
+  - cbn [client_props fold_right] in E.
+    change (fold_right _ (Some []) r) with (client_props (S f) g r) in E.
+    destruct (client_props (S f) g r) as [rest|] eqn:Er; [|discriminate].
+    assert (Hrest : forall x, In x rest -> In x (q :: r) \/ exists k qs, lookup g k = Some (SObject qs) /\ In x qs).
+    { intros x Hx. destruct (IHr rest eq_refl x Hx) as [H|H]; [left; right; exact H|right; exact H]. }
+    destruct (is_flat (p_ty q)) as [k|] eqn:Ef.
+    + destruct (lookup g k) as [[qs|qs|]|] eqn:Ek;
+        try (injection E as <-; destruct Hp as [<-|Hp]; [left; left; reflexivity|exact (Hrest p Hp)]).
+      destruct (client_props f g qs) as [cs|] eqn:Ec; [|discriminate]. cbn [option_map] in E. injection E as <-.
+      apply in_app_or in Hp as [Hp|Hp]; [|exact (Hrest p Hp)].
+      destruct (IHf qs cs Ec p Hp) as [H|H]; [right; exists k, qs; split; assumption|right; exact H].
+    + injection E as <-. destruct Hp as [<-|Hp]; [left; left; reflexivity|exact (Hrest p Hp)].
+Qed.
+
+Lemma cenv_schema_origin g g' k s' : client_env g = Some g' -> In (k, s') g' ->
+  forall p, In p (schema_props s') -> exists k0 s0, In (k0, s0) g /\ In p (schema_props s0).
+Proof.
+  intros E Hin p Hp. destruct (client_env_of_spec g g g' E) as (_ & _ & _ & I).
+  destruct (I k s' Hin) as (s & Hs & Es). destruct s as [ps|ps|]; cbn [client_schema] in Es.
+  - destruct (client_props (S (length g)) g ps) as [cps|] eqn:Ec; [|discriminate]. injection Es as <-. cbn [schema_props] in Hp.
+    destruct (client_props_origin g _ ps cps Ec p Hp) as [H|(k2 & qs & Hl & Hq)].
+    + exists k, (SObject ps). split; [exact Hs|exact H].
+    + exists k2, (SObject qs). split; [apply lookup_In_pair; exact Hl|exact Hq].
+  - injection Es as <-. exists k, (SOneof ps). split; [exact Hs|exact Hp].
+  - injection Es as <-. destruct Hp.
+Qed.
+
+Lemma cenv_refs_link g g' : client_env g = Some g' -> all_refs_link g = true -> all_refs_link g' = true.
+Proof.
+  intros E Hl. unfold all_refs_link. apply forallb_forall. intros [k s'] Hin. cbn [snd]. apply forallb_forall. intros m Hm.
+  unfold succs, prop_refs in Hm. apply in_flat_map in Hm as (p & Hp & Hr).
+  destruct (cenv_schema_origin g g' k s' E Hin p Hp) as (k0 & s0 & H0 & Hp0).
+  assert (Hpres : present g m).
+  { unfold all_refs_link in Hl. rewrite forallb_forall in Hl. specialize (Hl (k0, s0) H0). cbn [snd] in Hl.
+    rewrite forallb_forall in Hl. assert (Hm0 : In m (succs s0)) by (unfold succs, prop_refs; apply in_flat_map; exists p; split; assumption).
+    specialize (Hl m Hm0). unfold present. destruct (lookup g m); [discriminate|discriminate]. }
+  apply (cenv_present g g' m E) in Hpres. unfold present in Hpres. destruct (lookup g' m); [reflexivity|contradiction].
+Qed.
+
+Lemma cenv_wf_env g g' : client_env g = Some g' -> wf_env g -> wf_env g'.
+Proof.
+  intros E Hw. unfold wf_env. rewrite Forall_forall. intros [k s'] Hin. cbn [snd]. unfold wf_props. rewrite Forall_forall.
+  intros p Hp. destruct (cenv_schema_origin g g' k s' E Hin p Hp) as (k0 & s0 & H0 & Hp0).
+  unfold wf_env in Hw. rewrite Forall_forall in Hw. specialize (Hw (k0, s0) H0). cbn [snd] in Hw.
+  unfold wf_props in Hw. rewrite Forall_forall in Hw. exact (Hw p Hp0).
+Qed.
+
+Lemma cenv_length g g' : client_env g = Some g' -> length g' = length g.
+Proof. intro E. exact (proj1 (client_env_of_spec g g g' E)). Qed.
+
+
 Lemma walk_no_err g own : all_refs_link g = true -> forall f,
   (forall k vis e, present g k -> walk_ref f g own k vis <> Err e) /\
   (forall ks vis e, (forall k, In k ks -> present g k) -> walk_refs f g own ks vis <> Err e).
@@ -164,14 +254,14 @@ Qed.
 (* a list method: a QueryRequest among the request properties, one array of object references in
    the response. The client stage accepts it and attaches the walked paths. *)
 Theorem list_method_total (im : image) sub svc (m : src_method) req resp root :
-  flat_free (im_schemas im) ->
+  client_env (im_schemas im) <> None ->
   all_refs_link (im_schemas im) = true ->
   lookup (im_schemas im) (sub_pkg im sub, sm_req m) = Some (SObject req) ->
   str_eqb (sm_resp m) HTTPBODY_SHORT = false ->
   lookup (im_schemas im) (sub_pkg im sub, sm_resp m) = Some (SObject resp) ->
   is_query_request req = true -> list_root (Some resp) = Ok root ->
   exists paths,
-    walk_fields (S (length (im_schemas im))) (im_schemas im) root [] [] = Ok paths /\
+    walk_fields (S (length (im_schemas im))) (cenv (im_schemas im)) root [] [] = Ok paths /\
     method_from_source true im sub svc m =
     Ok {| cm_service := svc; cm_name := sm_name m; cm_verb := sm_verb m; cm_path := sm_path m;
           cm_req := fill_request (sm_verb m) (sm_path m) req; cm_resp := Some resp; cm_list := Some paths |}.
@@ -188,9 +278,12 @@ Proof.
     unfold array_props in Hin. apply in_flat_map in Hin as [p [Hp Hi]]. exists p. split; [exact Hp|].
     destruct (p_ty p) as [a0|a0 k0|i0|i0] eqn:Et; try contradiction.
     destruct Hi as [Hi|[]]. subst i0. cbn [ref_of]. left. reflexivity. }
-  destruct (list_walk_total (im_schemas im) root Hl Hp) as [paths Ew]. exists paths. split; [exact Ew|].
+  destruct (client_env (im_schemas im)) as [g'|] eqn:Ece; [|contradiction]. clear Hff.
+  rewrite (cenv_spec _ g' Ece).
+  destruct (list_walk_total g' root (cenv_refs_link _ g' Ece Hl) (proj2 (cenv_present _ g' root Ece) Hp)) as [paths Ew].
+  rewrite (cenv_length _ g' Ece) in Ew. exists paths. split; [exact Ew|].
   unfold method_from_source, object_props. rewrite Lreq. cbn [obind]. rewrite Hnb, Lresp. cbn [obind omap].
-  rewrite Hq, Hroot. cbn [obind]. rewrite (proj1 (cenv_noflat _ Hff)). rewrite Ew. reflexivity.
+  rewrite Hq, Hroot. cbn [obind]. rewrite (cenv_spec _ g' Ece). rewrite Ew. reflexivity.
 Qed.
 
 (* ---------- the request / response messages of a method are found ----------------- *)
@@ -236,7 +329,7 @@ Qed.
 (* ---------- one method through the client stage -------------------------------------- *)
 Lemma method_from_source_declared (P : decl_package) svc d :
   In d (all_methods P) -> NoDup (map df_name (all_methods P)) ->
-  flat_free (im_schemas (compile_image to_snake P)) ->
+  client_env (im_schemas (compile_image to_snake P)) <> None ->
   all_refs_link (im_schemas (compile_image to_snake P)) = true ->
   (is_query_request (df_req d) = true -> exists root, list_root (df_resp d) = Ok root) ->
   method_from_source true (compile_image to_snake P) SERVICE (svc ++ bytes_of "Service") (declared_src (df_decl d))
@@ -391,30 +484,34 @@ Theorem chain_full : forall P, valid_package to_snake P ->
     cr_source r = Ok (declared_api P)
     /\ cr_client r = Ok (declared_clients to_snake P, ks)
     /\ (forall x, In x ks <->
-          present (image_env P) x /\
-          exists k, In k (flat_map method_roots (declared_clients to_snake P)) /\ present (image_env P) k
-                    /\ reach (image_env P) k x)
+          present (cenv (image_env P)) x /\
+          exists k, In k (flat_map method_roots (declared_clients to_snake P)) /\ present (cenv (image_env P)) k
+                    /\ reach (cenv (image_env P)) k x)
     /\ cr_swagger r = Ok tt.
 Proof.
   intros P Hv. cbv zeta. unfold run_chain, run_client. cbn [cr_source cr_client cr_swagger current_config cc_walk_guard cc_arms cc_resp_guard].
-  assert (Hff : flat_free (im_schemas (compile_image to_snake P))) by (destruct Hv as (_ & _ & _ & _ & _ & H); exact H).
-  destruct (cenv_noflat _ Hff) as [Ec Ece].
-  rewrite (source_declared to_snake P Hv). cbn [obind]. rewrite Ece, Ec.
+  assert (Hff : client_env (im_schemas (compile_image to_snake P)) <> None) by (destruct Hv as (_ & _ & _ & _ & _ & H); exact H).
+  destruct (client_env (im_schemas (compile_image to_snake P))) as [g'|] eqn:Ece; [|contradiction].
+  pose proof (cenv_spec _ g' Ece) as Ec.
+  rewrite (source_declared to_snake P Hv). cbn [obind]. rewrite Ec.
   rewrite (methods_declared to_snake P Hv). cbn [obind].
-  assert (Hroots : forall k, In k (flat_map method_roots (declared_clients to_snake P)) -> present (image_env P) k).
-  { intros k Hk. apply in_flat_map in Hk as [m [Hm Hk]]. unfold declared_clients in Hm.
+  assert (Hroots : forall k, In k (flat_map method_roots (declared_clients to_snake P)) -> present g' k).
+  { intros k Hk. apply (cenv_present _ g' k Ece). apply in_flat_map in Hk as [m [Hm Hk]]. unfold declared_clients in Hm.
     apply in_flat_map in Hm as [s [Hs Hm]]. apply in_map_iff in Hm as [d [<- Hd]].
     destruct (declared_method_facts P s d Hv Hs Hd) as [H _]. apply H. exact Hk. }
   assert (Hl : all_refs_link (image_env P) = true) by (destruct Hv as (_ & _ & _ & H & _); exact H).
+  assert (Hl' : all_refs_link g' = true) by (exact (cenv_refs_link _ g' Ece Hl)).
   unfold collect_refs. rewrite Ec. cbn [compile_image im_roots im_pkg]. unfold root_refs. cbn [flat_map app].
-  fold (image_env P).
-  destruct (walk_refs_ok (image_env P) [dp_pkg P] _ Hl Hroots) as [ks Eks].
-  change (im_schemas (compile_image to_snake P)) with (image_env P).
+  destruct (walk_refs_ok g' [dp_pkg P] _ Hl' Hroots) as [ks Eks].
+  rewrite (cenv_length _ g' Ece) in Eks.
+  change (im_schemas (compile_image to_snake P)) with (image_env P) in *.
+  unfold image_env in Eks |- *. cbn [compile_image im_schemas] in Eks |- *.
   rewrite Eks. cbn [omap obind fst snd]. exists ks.
   split; [reflexivity|]. split; [reflexivity|]. split.
-  - exact (walk_refs_exact (image_env P) [dp_pkg P] _ _ ks Eks).
+  - assert (Ec' : cenv (flat_map (method_schemas (dp_pkg P)) (all_methods P) ++ dp_schemas P) = g') by exact Ec.
+    rewrite Ec'. exact (walk_refs_exact g' [dp_pkg P] _ _ ks Eks).
   - apply build_swagger_total.
-    + destruct Hv as (_ & _ & _ & _ & H & _). exact H.
+    + apply (cenv_wf_env (image_env P) g' Ece). destruct Hv as (_ & _ & _ & _ & H & _). exact H.
     + apply Forall_forall. intros m Hm. unfold declared_clients in Hm.
       apply in_flat_map in Hm as [s [Hs Hm]]. apply in_map_iff in Hm as [d [<- Hd]].
       destruct (declared_method_facts P s d Hv Hs Hd) as [_ H]. exact H.
